@@ -72,7 +72,8 @@ Section Bin.
   Lemma fsl_pt : forall e, binfam e = true -> fsl O e = pt e.
   Proof.
     induction e; intro H; try reflexivity; try discriminate.
-    cbn [binfam] in H. cbn [fsl print_text]. now rewrite (IHe H).
+    cbn [binfam] in H. cbn [fsl print_text].
+    match goal with IH : _ -> fsl _ ?v = _ |- _ => now rewrite (IH H) end.
   Qed.
 
   Lemma op_same : forall o, binop_text o = binary_op_str o.
@@ -98,69 +99,77 @@ Section Bin.
     match goal with |- context [if ?b then _ else _] => destruct b end;
     [rewrite opaque_toks, (fsl_pt e Hb); reflexivity|].
 
-  Ltac leaf e :=
-    let Hb := fresh in let Hk := fresh in let i := fresh in
-    intros Hb Hk i; destruct (node_of e Hk) as [_ [_ Hcc]];
-    enter e Hb; unfold multiline_doc; rewrite ?Hcc, ?andb_false_r; rewrite opaque_toks; reflexivity.
-
-  Theorem binfam_toks : forall e, binfam e = true -> tok_ok O e = true ->
+  Definition S (e : expr) : Prop := binfam e = true -> tok_ok O e = true ->
     forall i, toks (render (fd e i)) = toks (pt e).
+
+  Ltac leaf :=
+    match goal with |- S ?e =>
+      let Hb := fresh in let Hk := fresh in let i := fresh in let Hcc := fresh in
+      intros Hb Hk i; destruct (node_of e Hk) as [_ [_ Hcc]];
+      enter e Hb; unfold multiline_doc; rewrite ?Hcc, ?andb_false_r; rewrite opaque_toks; reflexivity
+    end.
+
+  Lemma step_assign : forall x e, S e -> S (EAssign x e).
   Proof.
-    induction e; try discriminate.
-    - leaf (ENum x). - leaf (EStr s). - leaf (EBool b). - leaf ENull. - leaf (EId x). - leaf (EInRef x).
-    - leaf (EBuiltin b).
-    - (* EAssign *)
-      intros Hb Hk i. pose proof Hk as Hk'. cbn [tok_ok] in Hk'. apply andb_prop in Hk'. destruct Hk' as [_ Hk'].
-      apply andb_prop in Hk'. destruct Hk' as [Hx Hv]. cbn [binfam] in Hb.
-      enter (EAssign x e) Hb. unfold multiline_doc.
-      destruct (kw_suffix x " = " Hx eq_refl eq_refl) as [_ [A2 _]].
-      change (render (Code (x +++ " = ") :: fd e i)) with ((x +++ " = ") +++ render (fd e i)).
-      rewrite (toks_app_closed _ _ A2), (IHe Hb Hv i), <- (toks_app_closed _ _ A2).
-      cbn [print_text]. now rewrite sapp_assoc.
-    - leaf (EAccess e1 e2). - leaf (EDot e f).
-    - (* EBin *)
-      intros Hb Hk i. pose proof Hk as Hk'. cbn [tok_ok] in Hk'. apply andb_prop in Hk'. destruct Hk' as [_ Hk'].
-      apply andb_prop in Hk'. destruct Hk' as [H1 H2]. cbn [binfam] in Hb. apply andb_prop in Hb.
-      destruct Hb as [B1 B2].
-      assert (Hb : binfam (EBin o e1 e2) = true) by (cbn [binfam]; now rewrite B1, B2).
-      enter (EBin o e1 e2) Hb. unfold multiline_doc, binop_doc.
-      destruct (node_of e1 H1) as [_ [P1 _]]. destruct (node_of e2 H2) as [_ [P2 _]].
-      change (o_needs_parens O o e1 true) with (pL pol o e1).
-      change (o_needs_parens O o e2 false) with (pR pol o e2).
-      (* the one-line text *)
-      destruct (paren_facts (pL pol o e1) _ P1) as [TL1 EL1].
-      destruct (paren_facts (pR pol o e2) _ P2) as [TR1 _].
-      rewrite pt_bin, (toks_bin_shape _ " " o _ EL1 is_sep_space), TL1, TR1.
-      (* the layouts *)
-      assert (HL : forall j, toks (render (wrap_parens (pL pol o e1) (fd e1 j))) = wrapT (pL pol o e1) (toks (pt e1))
-                             /\ ends_code (render (wrap_parens (pL pol o e1) (fd e1 j))) = true).
-      { intro j. rewrite render_wrap. destruct (layout_toks O w e1 j H1) as [_ E].
-        destruct (paren_facts (pL pol o e1) _ E) as [T E']. rewrite T, (IHe1 B1 H1 j). auto. }
-      assert (HR : forall j, toks (render (wrap_parens (pR pol o e2) (fd e2 j))) = wrapT (pR pol o e2) (toks (pt e2))).
-      { intro j. rewrite render_wrap. destruct (layout_toks O w e2 j H2) as [_ E].
-        destruct (paren_facts (pR pol o e2) _ E) as [T _]. rewrite T, (IHe2 B2 H2 j). reflexivity. }
-      destruct (HL i) as [TL EL].
-      assert (MID : forall R, toks (render (wrap_parens (pL pol o e1) (fd e1 i) ++
-                                     [Code (" " +++ binary_op_str o +++ " ")] ++ R))
-                              = wrapT (pL pol o e1) (toks (pt e1)) ++ [binary_op_str o] ++ toks (render R)).
-      { intro R. rewrite render_app'. cbn [app render render_piece].
-        change ((" " +++ binary_op_str o +++ " ") +++ render R)
-          with (" " +++ (binary_op_str o +++ " ") +++ render R).
-        rewrite (toks_bin_shape _ " " o _ EL is_sep_space), TL. reflexivity. }
-      assert (BRK : forall n R, toks (render (wrap_parens (pL pol o e1) (fd e1 i) ++
-                                     [Nl; ind n; Code (binary_op_str o +++ " ")] ++ R))
-                              = wrapT (pL pol o e1) (toks (pt e1)) ++ [binary_op_str o] ++ toks (render R)).
-      { intros n R. rewrite render_app'. cbn [app render render_piece ind].
-        rewrite <- (sapp_assoc nl (make_indent n)).
-        rewrite (toks_bin_shape _ (nl +++ make_indent n) o _ EL (is_sep_nl_indent n)), TL. reflexivity. }
-      destruct (is_via_like o && is_lambda e2).
-      + match goal with |- context [if ?c then _ else _] => destruct c end.
-        * destruct (contains_nl _) eqn:Enl.
-          -- rewrite (relined_identity _ Enl), String.eqb_refl, MID, HR. reflexivity.
-          -- rewrite MID, HR. reflexivity.
-        * rewrite BRK, HR. reflexivity.
-      + rewrite BRK, HR. reflexivity.
-    - leaf (EUn u e). - leaf (EFact e). - leaf (ESpread e).
+    intros x e IHe Hb Hk i. pose proof Hk as Hk'. cbn [tok_ok] in Hk'. apply andb_prop in Hk'. destruct Hk' as [_ Hk'].
+    apply andb_prop in Hk'. destruct Hk' as [Hx Hv]. pose proof Hb as Hbv. cbn [binfam] in Hbv.
+    enter (EAssign x e) Hb. unfold multiline_doc.
+    destruct (kw_suffix x " = " Hx eq_refl eq_refl) as [_ [A2 _]].
+    change (render (Code (x +++ " = ") :: fd e i)) with ((x +++ " = ") +++ render (fd e i)).
+    rewrite (toks_app_closed _ _ A2), (IHe Hbv Hv i), <- (toks_app_closed _ _ A2).
+    cbn [print_text]. now rewrite sapp_assoc.
+  Qed.
+
+  Lemma step_bin : forall o e1 e2, S e1 -> S e2 -> S (EBin o e1 e2).
+  Proof.
+    intros o e1 e2 IHe1 IHe2 Hb Hk i.
+    pose proof Hk as Hk'. cbn [tok_ok] in Hk'. apply andb_prop in Hk'. destruct Hk' as [_ Hk'].
+    apply andb_prop in Hk'. destruct Hk' as [H1 H2]. pose proof Hb as Hb'. cbn [binfam] in Hb'. apply andb_prop in Hb'.
+    destruct Hb' as [B1 B2].
+    enter (EBin o e1 e2) Hb. unfold multiline_doc, binop_doc.
+    destruct (node_of e1 H1) as [_ [P1 _]]. destruct (node_of e2 H2) as [_ [P2 _]].
+    change (o_needs_parens O o e1 true) with (pL pol o e1).
+    change (o_needs_parens O o e2 false) with (pR pol o e2).
+    (* the one-line text *)
+    destruct (paren_facts (pL pol o e1) _ P1) as [TL1 EL1].
+    destruct (paren_facts (pR pol o e2) _ P2) as [TR1 _].
+    rewrite pt_bin, (toks_bin_shape _ " " o _ EL1 is_sep_space), TL1, TR1.
+    (* the layouts *)
+    assert (HL : forall j, toks (render (wrap_parens (pL pol o e1) (fd e1 j))) = wrapT (pL pol o e1) (toks (pt e1))
+                           /\ ends_code (render (wrap_parens (pL pol o e1) (fd e1 j))) = true).
+    { intro j. rewrite render_wrap. destruct (layout_toks O w e1 j H1) as [_ E].
+      destruct (paren_facts (pL pol o e1) _ E) as [T E']. rewrite T, (IHe1 B1 H1 j). auto. }
+    assert (HR : forall j, toks (render (wrap_parens (pR pol o e2) (fd e2 j))) = wrapT (pR pol o e2) (toks (pt e2))).
+    { intro j. rewrite render_wrap. destruct (layout_toks O w e2 j H2) as [_ E].
+      destruct (paren_facts (pR pol o e2) _ E) as [T _]. rewrite T, (IHe2 B2 H2 j). reflexivity. }
+    destruct (HL i) as [TL EL].
+    assert (MID : forall R, toks (render (wrap_parens (pL pol o e1) (fd e1 i) ++
+                                   [Code (" " +++ binary_op_str o +++ " ")] ++ R))
+                            = wrapT (pL pol o e1) (toks (pt e1)) ++ [binary_op_str o] ++ toks (render R)).
+    { intro R. rewrite render_app'. cbn [app render render_piece].
+      change ((" " +++ binary_op_str o +++ " ") +++ render R)
+        with (" " +++ (binary_op_str o +++ " ") +++ render R).
+      rewrite (toks_bin_shape _ " " o _ EL is_sep_space), TL. reflexivity. }
+    assert (BRK : forall n R, toks (render (wrap_parens (pL pol o e1) (fd e1 i) ++
+                                   [Nl; ind n; Code (binary_op_str o +++ " ")] ++ R))
+                            = wrapT (pL pol o e1) (toks (pt e1)) ++ [binary_op_str o] ++ toks (render R)).
+    { intros n R. rewrite render_app'. cbn [app render render_piece ind].
+      rewrite <- (sapp_assoc nl (make_indent n)).
+      rewrite (toks_bin_shape _ (nl +++ make_indent n) o _ EL (is_sep_nl_indent n)), TL. reflexivity. }
+    destruct (is_via_like o && is_lambda e2).
+    + match goal with |- context [if ?c then _ else _] => destruct c end.
+      * destruct (contains_nl _) eqn:Enl.
+        -- rewrite (relined_identity _ Enl), String.eqb_refl, MID, HR. reflexivity.
+        -- rewrite MID, HR. reflexivity.
+      * rewrite BRK, HR. reflexivity.
+    + rewrite BRK, HR. reflexivity.
+  Qed.
+
+  Theorem binfam_toks : forall e, S e.
+  Proof.
+    induction e; try (intro Hd; discriminate Hd); try leaf.
+    - apply step_assign; assumption.
+    - apply step_bin; assumption.
   Qed.
 
   Corollary binfam_lview : forall e i, binfam e = true -> tok_ok O e = true ->
